@@ -38,7 +38,8 @@ CHECKS['C15'] = dict(
           'floats as exact fractions) equals the exact-arithmetic model for every available memory, limit of either '
           'sign, multiplier >= 1, worker count and row size (generated_set_memory_eq_hand), hence the budget inequality '
           '(generated_budget), monotonicity and admits-one-row hold of what the source says now; |multiplier| < 1, zero '
-          'workers and zero-byte rows raise; 1 <= cores <= logical for the GENERATED __set_cores and '
+          'workers and zero-byte rows raise; sizing_then_compute: generated __set_cores + __set_memory + compute loop end to end '
+          '(finishes tiling the pending range when the budget admits a row; ValueError and nothing marked when it admits none); 1 <= cores <= logical for the GENERATED __set_cores and '
           'recommend_cpu_cores for every request (None, negative, zero, beyond the machine), requested_cores=0 and '
           'num_jobs=0 raise; the compute loop assembled from the generated window/recommender terminates with the '
           'windows tiling the pending range when the batch is >= 1 and stops with ValueError, marking nothing, when it '
